@@ -1,0 +1,146 @@
+//go:build verif
+
+package introspection
+
+// Machine-checked contracts for the gocv verifier (/verif/DESIGN.md). Comments only.
+//
+// C16 "mirrors the schema exactly ... each element's own deprecation status": at every construction site of an
+// introspection element the stored components equal the corresponding components of the schema element the loop
+// is currently at (dirForName = DirectiveList.ForName, a pure lookup), elements are appended in schema order,
+// exactly the documented ones are skipped.
+
+//@ spec dirForName(int, int, int, string) int
+//@ trusted (github.com/vektah/gqlparser/v2/ast.DirectiveList).ForName(name) (d)
+//@   ensures d == dirForName(recv, name)
+//@   nopanic
+//@   pure
+//@ trusted (github.com/vektah/gqlparser/v2/ast.ArgumentList).ForName(name) (a)
+//@   nopanic
+//@   pure
+//@ trusted (*github.com/vektah/gqlparser/v2/ast.Value).String() (s)
+//@   pure
+//@ trusted (*github.com/vektah/gqlparser/v2/ast.Schema).GetPossibleTypes(def) (defs)
+//@   pure
+//@ trusted strings.HasPrefix(s, prefix) (b)
+//@   nopanic
+//@   pure
+//@ trusted sort.Strings(x)
+//@   modifies elems
+
+//@ func WrapTypeFromDef [C16]
+//@   ensures def == nil <==> res0 == nil
+//@   ensures res0 != nil ==> res0.def == def && res0.schema == s && res0.typ == nil
+//@   nopanic
+//@   modifies nothing
+//@ func WrapTypeFromType [C16]
+//@   requires s != nil
+//@   ensures typ == nil <==> res0 == nil
+//@   ensures res0 != nil ==> res0.schema == s
+//@   ensures res0 != nil && (old(typ.NonNull) || old(typ.NamedType) == "") ==> res0.typ == typ && res0.def == nil
+//@   ensures res0 != nil && !(old(typ.NonNull) || old(typ.NamedType) == "") ==> res0.typ == nil
+//@   safe
+//@   modifies nothing
+//@ func WrapSchema [C16]
+//@   ensures res0 != nil && res0.schema == schema
+//@   nopanic
+//@   modifies nothing
+//@ func defaultValue [C16]
+//@   replay introspectionFields.go.tmpl
+//@   ensures value == nil <==> res0 == nil
+//@   ensures value != nil ==> calls(String) == 1
+//@   modifies nothing
+
+// Fields: own deprecation of the field and of EACH ARGUMENT (arg.Directives, not the field's), names,
+// descriptions, types and default values taken from the element at hand; skipped are exactly the "__" fields and,
+// unless includeDeprecated, the deprecated ones; one output field per eligible schema field, in order.
+//@ func (*Type).Fields [C16]
+//@   replay introspectionFields.go.tmpl
+//@   requires t != nil && t.schema != nil
+//@   ghost pfx = false
+//@   ghost eligible = 0
+//@   ghost wrapped = 0
+//@   ghost dflt = 0
+//@   at `strings.HasPrefix(f.Name, "__")` requires arg0 == f.Name
+//@   at `strings.HasPrefix(f.Name, "__")` ghost pfx = callres0
+//@   at `strings.HasPrefix(f.Name, "__")` ghost eligible = eligible + ite(!callres0 && (includeDeprecated || dirForName(f.Directives, "deprecated") == nil), 1, 0)
+//@   at `WrapTypeFromType(t.schema, arg.Type)` requires arg1 == arg.Type
+//@   at `WrapTypeFromType(t.schema, arg.Type)` ghost wrapped = callres0
+//@   at `defaultValue(arg.DefaultValue)` requires arg0 == arg.DefaultValue
+//@   at `defaultValue(arg.DefaultValue)` ghost dflt = callres0
+//@   at `append(args, InputValue{...` requires len(args) == idx2 && arg1.Name == arg.Name && arg1.description == arg.Description
+//@   at `append(args, InputValue{...` requires arg1.deprecation == dirForName(arg.Directives, "deprecated")
+//@   at `append(args, InputValue{...` requires arg1.Type == wrapped && arg1.DefaultValue == dflt
+//@   at `WrapTypeFromType(t.schema, f.Type)` requires arg1 == f.Type
+//@   at `WrapTypeFromType(t.schema, f.Type)` ghost wrapped = callres0
+//@   at `append(fields, Field{...` requires !pfx && (includeDeprecated || dirForName(f.Directives, "deprecated") == nil)
+//@   at `append(fields, Field{...` requires arg1.Name == f.Name && arg1.description == f.Description && arg1.Type == wrapped
+//@   at `append(fields, Field{...` requires arg1.deprecation == dirForName(f.Directives, "deprecated")
+//@   at `append(fields, Field{...` requires len(arg1.Args) == len(f.Arguments) && len(fields) + 1 == eligible
+//@   loop 1: invariant len(fields) == eligible
+//@   loop 2: invariant len(args) == idx2
+//@   ensures len(res0) == eligible
+
+//@ func (*Type).InputFields [C16]
+//@   requires t != nil && t.schema != nil
+//@   ghost wrapped = 0
+//@   ghost dflt = 0
+//@   at `WrapTypeFromType(t.schema, f.Type)` requires arg1 == f.Type
+//@   at `WrapTypeFromType(t.schema, f.Type)` ghost wrapped = callres0
+//@   at `defaultValue(f.DefaultValue)` requires arg0 == f.DefaultValue
+//@   at `defaultValue(f.DefaultValue)` ghost dflt = callres0
+//@   at `append(res, InputValue{...` requires len(res) == idx1 && arg1.Name == f.Name && arg1.description == f.Description
+//@   at `append(res, InputValue{...` requires arg1.deprecation == dirForName(f.Directives, "deprecated") && arg1.Type == wrapped && arg1.DefaultValue == dflt
+//@   loop 1: invariant len(res) == idx1
+//@   ensures t.def != nil && t.def.Kind == ast.InputObject ==> len(res0) == len(t.def.Fields)
+
+//@ func (*Type).EnumValues [C16]
+//@   requires t != nil
+//@   ghost eligible = 0
+//@   at `val.Directives.ForName("deprecated")`#1 ghost eligible = eligible + ite(includeDeprecated || callres0 == nil, 1, 0)
+//@   at `append(res, EnumValue{...` requires includeDeprecated || dirForName(val.Directives, "deprecated") == nil
+//@   at `append(res, EnumValue{...` requires arg1.Name == val.Name && arg1.description == val.Description && arg1.deprecation == dirForName(val.Directives, "deprecated")
+//@   ensures calls(ForName) >= 0
+
+//@ func (*Type).Interfaces [C16]
+//@   requires t != nil
+//@   at `WrapTypeFromDef(t.schema, t.schema.Types[intf])` requires arg0 == t.schema
+//@   loop 1: invariant len(res) == idx1
+//@   ensures t.def != nil && t.def.Kind == ast.Object ==> len(res0) == len(t.def.Interfaces)
+//@ func (*Type).PossibleTypes [C16]
+//@   requires t != nil
+//@   ghost n = 0
+//@   at `t.schema.GetPossibleTypes(t.def)` requires arg0 == t.def
+//@   at `t.schema.GetPossibleTypes(t.def)` ghost n = len(callres0)
+//@   at `WrapTypeFromDef(t.schema, pt)` requires arg0 == t.schema && arg1 == pt
+//@   loop 1: invariant len(res) == idx1
+//@   ensures calls(GetPossibleTypes) == 1 ==> len(res0) == n
+
+// accessors: pure functions of the stored directive
+//@ func (*EnumValue).IsDeprecated [C16]
+//@   requires f != nil
+//@   ensures res0 <==> f.deprecation != nil
+//@   nopanic
+//@   modifies nothing
+//@ func (*Field).IsDeprecated [C16]
+//@   requires f != nil
+//@   ensures res0 <==> f.deprecation != nil
+//@   nopanic
+//@   modifies nothing
+//@ func (*InputValue).IsDeprecated [C16]
+//@   requires f != nil
+//@   ensures res0 <==> f.deprecation != nil
+//@   nopanic
+//@   modifies nothing
+
+// directive definitions: one argument per definition argument, at its own index, with its own name/description
+//@ func (*Schema).directiveFromDef [C16]
+//@   requires s != nil && d != nil && s.schema != nil
+//@   ghost wrapped = 0
+//@   ghost dflt = 0
+//@   at `WrapTypeFromType(s.schema, arg.Type)` requires arg1 == arg.Type
+//@   at `WrapTypeFromType(s.schema, arg.Type)` ghost wrapped = callres0
+//@   at `defaultValue(arg.DefaultValue)` requires arg0 == arg.DefaultValue
+//@   at `defaultValue(arg.DefaultValue)` ghost dflt = callres0
+//@   at `assign args[i]` requires rhs0.Name == arg.Name && rhs0.description == arg.Description && rhs0.Type == wrapped && rhs0.DefaultValue == dflt && i == idx2
+//@   ensures res0.Name == old(d.Name) && res0.description == old(d.Description) && res0.IsRepeatable == old(d.IsRepeatable)
+//@   ensures len(res0.Args) == old(len(d.Arguments)) && len(res0.Locations) == old(len(d.Locations))
